@@ -187,12 +187,20 @@ func evalSave(sc saveCase, trace []string) *Failure {
 		rest := trace[k:]
 		var buf1, buf2 bytes.Buffer
 		orig.Save(&buf1)
+		saved := append([]byte{}, buf1.Bytes()...)
+		// the same writer value used again straight away (a drained buffer, a rewritten checkpoint file): the second
+		// save into the emptied buf1 must be a complete record of its own
+		buf1.Reset()
+		orig.Save(&buf1)
+		if !bytes.Equal(buf1.Bytes(), saved) {
+			f = mk("save-not-repeatable", "a second save into the same (emptied) writer differs from the first save at the same point")
+			return
+		}
 		orig.Save(&buf2)
 		if !bytes.Equal(buf1.Bytes(), buf2.Bytes()) {
 			f = mk("save-not-repeatable", "two saves at the same point differ")
 			return
 		}
-		saved := append([]byte{}, buf1.Bytes()...)
 		loaded := loadIter(sc, saved)
 		if sc.Chain {
 			// advance the loaded iterator j steps, save again, load, drain
